@@ -29,7 +29,7 @@ CURVES = ["P-256", "P-384", "P-521", "secp256k1", "X25519", "X448"]
 DIRECT = {"dir", "ECDH-ES", "ECDH-1PU"}
 import os
 CURVE_SET = (0, 1, 2, 3, 4, 5) if os.environ.get("VERIF_TIER") == "thorough" else (0, 4)     # quick: P-256 and X25519
-ENC_SET = tuple(range(8)) if os.environ.get("VERIF_TIER") == "thorough" else (0, 3, 6)            # quick: one enc per class
+ENC_SET = tuple(range(8)) if os.environ.get("VERIF_TIER") == "thorough" else (0, 3, 6, 7)         # quick: one enc per class + XC20P (its own IV size)
 ALL_NAMES = ALGS + [e[0] for e in ENCS] + ["DEF"]
 
 
@@ -369,20 +369,26 @@ def fresh_ok(env, info, n_messages):
         if len(ivd) != 1 or ivd[0]["n"] != 12:
             return False
         used.append(id(ivd[0]))
+    if alg.startswith("PBES2"):
+        ps, seen = [], []
+        for p in env.of("pbkdf2"):           # (the consumer side of each round trip derives the same key a second time)
+            if p["salt"] not in seen:
+                seen.append(p["salt"])
+                ps.append(p)
+        if len(ps) != n_messages:
+            return False                     # one distinct salt per message
+        for p in ps:
+            salt_in = p["salt"][len(alg) + 1:]
+            sd = [d for d in draws if d["value"] == salt_in]
+            if len(sd) != 1 or sd[0]["n"] < 8 or id(sd[0]) in used or p["iterations"] < 1000:
+                return False
+            used.append(id(sd[0]))
     if alg not in DIRECT:
         # the CEK is a fresh draw of exactly the enc's size
         cekd = [d for d in draws if d["n"] is not None and d["source"] in ("secrets", "os.urandom") and d["n"] * 8 == info["cekbits"] and id(d) not in used]
         if len(cekd) < n_messages:
             return False
         used += [id(d) for d in cekd[:n_messages]]
-    if alg.startswith("PBES2"):
-        ps = env.of("pbkdf2")
-        for p in ps[:n_messages]:
-            salt_in = p["salt"][len(alg) + 1:]
-            sd = [d for d in draws if d["value"] == salt_in]
-            if len(sd) != 1 or sd[0]["n"] < 8 or id(sd[0]) in used or p["iterations"] < 1000:
-                return False
-            used.append(id(sd[0]))
     if alg.startswith("ECDH"):
         gens = [d for d in draws if d["source"] in ("ec.generate_private_key", "okp.generate")]
         if len(gens) != n_messages or any(g["curve"] != info["key"].curve_name for g in gens):
@@ -702,13 +708,14 @@ def freshness_probe(alg, encname, key, sender, reg):
         hd = json.loads(base64.urlsafe_b64decode(h + "=" * (-len(h) % 4)))
         return iv, ek, json.dumps(hd.get("epk"), sort_keys=True), hd.get("p2s"), hd.get("iv"), hd.get("p2c")
     try:
-        ss = [sample() for _ in range(64)]
+        # (cheap key management: enough encryptions for a size defect that shows once in 256 draws, e.g. a leading zero octet dropped)
+        ss = [sample() for _ in range(4096 if alg.endswith("GCMKW") or alg == "dir" or alg[1:4].isdigit() else 64)]
     except Exception as e:  # noqa
         return []
     for idx, label in ((0, "IV"), (1, "encrypted key"), (2, "ephemeral key"), (3, "p2s"), (4, "key-wrap IV")):
         vals = [s[idx] for s in ss if s[idx] not in (None, "", "null")]
         if len(set(vals)) != len(vals):
-            out.append("%s repeats within 64 encryptions" % label)
+            out.append("%s repeats within %d encryptions" % (label, len(ss)))
     want_iv = {e[0]: e[1] for e in ENCS}[encname] // 8
     if any(len(base64.urlsafe_b64decode(s[0] + "=" * (-len(s[0]) % 4))) != want_iv for s in ss):
         out.append("IV of the wrong size")
@@ -717,6 +724,9 @@ def freshness_probe(alg, encname, key, sender, reg):
         out.append("PBES2 salt input shorter than 8 octets")
     if any(s[5] is not None and s[5] < 1000 for s in ss):
         out.append("default p2c below 1000")
+    kwiv = [s[4] for s in ss if s[4]]
+    if kwiv and any(len(base64.urlsafe_b64decode(x + "=" * (-len(x) % 4))) != 12 for x in kwiv):
+        out.append("AES-GCM key-wrap IV that is not 96 bits (%d of %d)" % (sum(1 for x in kwiv if len(base64.urlsafe_b64decode(x + "=" * (-len(x) % 4))) != 12), len(kwiv)))
     # across forked processes
     rs = []
     for _ in range(2):
